@@ -196,6 +196,9 @@ type Frag struct {
 	B    []byte
 	Next any  // generator state after this fragment
 	Skip bool // replayed context only: the nodes of this fragment are neither counted nor checked here
+	// Coarse: one trie node at the end of the fragment only (chunk boundaries between fragments, not inside): for
+	// inputs of tens of kilobytes
+	Coarse bool
 }
 
 // TrieGen defines the input space.
@@ -243,7 +246,7 @@ func (p prefixedTrie) Expand(st any, depth int) []Frag {
 	fr := p.Sub.Expand(s.sub, depth)
 	out := make([]Frag, len(fr))
 	for i, f := range fr {
-		out[i] = Frag{B: f.B, Next: prefState{true, f.Next}}
+		out[i] = Frag{B: f.B, Next: prefState{true, f.Next}, Skip: f.Skip, Coarse: f.Coarse}
 	}
 	return out
 }
@@ -281,13 +284,13 @@ func (u unionTrie) Expand(st any, depth int) []Frag {
 	if s.idx < 0 {
 		for i, g := range u.Subs {
 			for _, f := range g.Expand(g.Root(), depth) {
-				out = append(out, Frag{B: f.B, Next: unionState{i, f.Next}})
+				out = append(out, Frag{B: f.B, Next: unionState{i, f.Next}, Skip: f.Skip, Coarse: f.Coarse})
 			}
 		}
 		return out
 	}
 	for _, f := range u.Subs[s.idx].Expand(s.sub, depth) {
-		out = append(out, Frag{B: f.B, Next: unionState{s.idx, f.Next}})
+		out = append(out, Frag{B: f.B, Next: unionState{s.idx, f.Next}, Skip: f.Skip, Coarse: f.Coarse})
 	}
 	return out
 }
@@ -547,6 +550,14 @@ func (w *worker[T]) runJob(path []Frag, own int) {
 	alive := true
 	for i, f := range path {
 		w.count = i >= own && !f.Skip
+		if f.Coarse {
+			w.buf = append(w.buf, f.B...)
+			depth += len(f.B)
+			if !w.visit(depth) {
+				alive = false
+			}
+			continue
+		}
 		for _, c := range f.B {
 			w.buf = append(w.buf, c)
 			depth++
@@ -584,7 +595,15 @@ func (w *worker[T]) dfs(st any, depth int) {
 		ok := true
 		d := depth
 		w.count = !f.Skip
+		if f.Coarse {
+			w.buf = append(w.buf, f.B...)
+			d += len(f.B)
+			ok = w.visit(d)
+		}
 		for _, c := range f.B {
+			if f.Coarse {
+				break
+			}
 			w.buf = append(w.buf, c)
 			d++
 			if !w.visit(d) {
